@@ -15,6 +15,10 @@ ASSUMPTIONS = [
     'ramalhete_queue and nikolaev_queue: concurrent linearizability is explored (exact FIFO linearizability check of every explored history), not proved',
 ]
 
+PROPERTY_FILES = ['Properties_C04', 'Properties_C04_ram']
+THEOREM_NOTES = {
+    'scope': 'proved on step-level models tied by trace correspondence: michael_scott_queue (chain, FIFO conservation, pop value, emptiness point) and ramalhete_queue for every entries_per_node E >= 1 and pop_retries R (node chain, ticket ownership, entry life cycle null -> value -> taken, conservation g_pushed ~ g_popped ++ contents in EVERY reachable state, tickets handed out in global order without gaps, values leave in ticket order, the two emptiness exits with every filled ticket already claimed, destructor deletes exactly the filled tickets, solo termination bounds; hypothesis: no 32-bit ticket counter has wrapped); two natural but false formalisations are refuted with schedules replayed on the code (CAS order is not the leaving order; a pop may answer empty while a claimed, filled ticket exists - it is linearized after the claiming pop). nikolaev_queue, the real reclaimers, element kinds and small nodes are covered by the search with an exact FIFO linearizability oracle',
+}
 def replay(sig, V, wd):
     hs = X.build_harnesses(harnesses('thorough'))
     sfx = sig.get('harness', 'uq_hp')
@@ -33,6 +37,13 @@ def run(ctx):
         cases.append(({'q': 'ms', 'elem': 'int'}, queue_program(rng, 2 + k % 2, 3 + k % 3)))
     st = do_correspondence(ctx, 'msq', Hs['uq_gc'], cases, 10 if thorough else 5, 'michael_scott')
     tie = tie_broken_sig(st, 'msq')
+    # ---- correspondence: ramalhete_queue model (GC reclaimer instance), several node sizes / retry counts
+    rcases = []
+    for epn, ret in ((1, 0), (2, 1), (3, 1), (2, 0)) + (((4, 1), (11, 0), (1, 1)) if thorough else ()):
+        for k in range(2):
+            rcases.append(({'q': 'ram', 'elem': 'ptr', 'epn': str(epn), 'retries': str(ret)}, queue_program(rng, 2 + k % 2, 3 + k)))
+    st2 = do_correspondence(ctx, 'ram', Hs['uq_gc'], rcases, 8 if thorough else 4, 'ramalhete')
+    tie = tie or tie_broken_sig(st2, 'ram')
     # ---- search: all three queues, every built reclaimer, small nodes
     n = 2500 if thorough else 300
     for name, H in sorted(Hs.items()):
